@@ -234,6 +234,9 @@ class Ledger(Process):
         upd = {'log': [tok], 'own': [tok], 'acc': amount, 'clock': timestep}
         if self.parameters.get('amount2'):
             upd['acc2'] = self.parameters['amount2']
+        if self.parameters.get('reset_at') == k:
+            # one update names its own updater (the accumulator is set to 1000); the later plain ones accumulate again
+            upd['acc'] = {'_updater': 'set', '_value': 1000}
         if self.parameters.get('vec'):
             import numpy as np
             upd['vec'] = np.array([amount, 2 * amount])
